@@ -69,6 +69,10 @@ def round_trip(ctx, nc, plain, salt, case):
 def rand_plain(rng):
     n = rng.choice([0, 1, 2, 3, 6, 7, 8, 13, 14, 15, rng.randint(0, 40)])
     r = rng.random()
+    if r < 0.06:
+        # a plaintext that itself reads like a secret of some format: a well-formed $9$ string (own encoder), a $1$ / $6$ / type-7 shape
+        inner = "".join(rng.choice("abcXYZ0189") for _ in range(rng.randint(0, 12)))
+        return rng.choice([decoders.j9_encode(inner or "x", rng.choice(A), rng), "$9$" + inner, "$1$ab$" + inner, "$6$" + inner, "0822455D0A16"])
     if r < 0.5:
         return "".join(chr(rng.randint(0, 255)) for _ in range(n))
     if r < 0.8:
